@@ -34,7 +34,7 @@ def explore(res, rng, n):
     # ---- the three closing formulas with the curvature extraction replaced (as the repository's own tests do)
     for i in range(n * 5):
         d = rng.choice([2, 3, 4, 5])
-        beta = rng.choice([0.5, 1.0, 2.0, 3.0, 4.0])
+        beta = rng.choice([0.5, 1.0, 2.0, 3.0, 4.0, 6.0, 7.5, 8.2])      # (pf down to 1e-16: the first-order factor must be Phi(-beta), not 1 - Phi(beta))
         ks = [rng.choice([0.0, 0.0, 0.1, 0.3, -0.1 / beta, 0.5, -0.2 / beta]) for _ in range(d - 1)]
         with mock.patch.object(sorm, 'mainCurvaturesAtDesignPoint', return_value=(ks, beta, [0.0] * d, [0.0] * d)):
             outs = {nm: f(d, None, None, None, None)[1] for nm, f in (('breitung', rrm.breitungSORM), ('tvedt', rrm.tvedtSORM), ('hrack', rrm.hrackSORM))}
@@ -59,9 +59,12 @@ def explore(res, rng, n):
         with mock.patch.object(sorm, 'mainCurvaturesAtDesignPoint', return_value=(perm, beta, [0.0] * d, [0.0] * d)):
             if not gen.close(rrm.breitungSORM(d, None, None, None, None)[1], outs['breitung'], 1e-12):
                 fail(res, 'Breitung depends on the order of the curvatures', case, None)
-        if all(k >= 0 for k in ks) and any(ks) and not (outs['breitung'] < form and outs['hrack'] < form):
+        # (Hohenbichler-Rackwitz uses phi/Phi in place of beta: at beta = 8.2 that is 1e-15 and the factor is 1 to machine precision, so the
+        #  inequality is strict only where phi/Phi * |k| is resolved by binary64)
+        hr_resolved = psi * max(abs(k) for k in ks) > 1e-10
+        if all(k >= 0 for k in ks) and any(ks) and not (outs['breitung'] < form and (outs['hrack'] < form if hr_resolved else outs['hrack'] <= form)):
             fail(res, 'curvature away from the origin does not lower the estimate', case, [outs, form])
-        if all(-1 / beta < k <= 0 for k in ks) and any(ks) and not (outs['breitung'] > form and outs['hrack'] > form):
+        if all(-1 / beta < k <= 0 for k in ks) and any(ks) and not (outs['breitung'] > form and (outs['hrack'] > form if hr_resolved else outs['hrack'] >= form)):
             fail(res, 'curvature towards the origin does not raise the estimate', case, [outs, form])
         reqs.append('c12 ' + ' '.join(str(gen.bits(x)) for x in [beta, form, float(phi(beta)), float(Phi(beta))] + ks))
         meta.append((case, outs))
@@ -199,6 +202,38 @@ def explore(res, rng, n):
                      sig=f'C12:flat-not-form:{name}')
 
 
+def numerical_gradient_small_magnitudes(res):
+    """dg = None on a limit state that is not quadratic in X, with variables of magnitude 1e-3 (lengths in metres): the built-in
+    numerical gradient must be taken with the step that was asked for (dx), so that the estimates agree with those for the analytic
+    gradient; a paraboloid in U space written through lognormal marginals"""
+    core.import_impl()
+    import numpy as np
+    from scipy import stats
+    from ffpack import rrm
+    s1, s2, m1, m2 = 0.2, 0.3, 2e-3, 1e-3
+    beta0, kap = 2.5, 0.25
+    def g(X):
+        u1 = math.log(X[0] / m1) / s1
+        u2 = math.log(X[1] / m2) / s2
+        return beta0 - u2 + 0.5 * kap * u1 * u1
+    dg = [lambda X: kap * (math.log(X[0] / m1) / s1) / (s1 * X[0]), lambda X: -1.0 / (s2 * X[1])]
+    dists = [stats.lognorm(s1, scale=m1), stats.lognorm(s2, scale=m2)]
+    for nm, f in (('breitung', rrm.breitungSORM), ('tvedt', rrm.tvedtSORM), ('hrack', rrm.hrackSORM)):
+        res.evaluations += 1
+        res.stat('numerical_gradient_small_magnitude')
+        case = {'problem': 'paraboloid through lognormal(0.2, 2e-3) x lognormal(0.3, 1e-3)', 'method': nm}
+        try:
+            a = f(2, g, dg, dists, np.eye(2).tolist())
+            b = f(2, g, None, dists, np.eye(2).tolist())
+        except Exception as e:  # noqa
+            fail(res, 'SORM raised on a smooth problem with variables of magnitude 1e-3: ' + repr(e)[:100], case, None)
+            continue
+        want = float(stats.norm.cdf(-beta0)) * (1 + (beta0 if nm != 'hrack' else float(stats.norm.pdf(beta0) / stats.norm.cdf(beta0))) * kap) ** -0.5
+        if abs(b[1] - a[1]) > 2e-3 * a[1] or (nm != 'tvedt' and abs(a[1] - want) > 2e-3 * want):
+            fail(res, f'{nm}: estimate with the built-in numerical gradient (dg = None) differs from the one with the analytic gradient / the paraboloid formula', case,
+                 {'analytic_dg': float(a[1]), 'dg_None': float(b[1]), 'formula': want})
+
+
 def sorm_model_stream(res, rng, k):
     """the executable Lean model of the curvature extraction (Model/SormPipe.lean: gradient pulled back to U space, alignment vector,
     argmax column, Gram-Schmidt basis, U-space Hessian with the curvature of the marginal maps, conjugation, leading block) against
@@ -272,6 +307,7 @@ def run(tier, seed):
     translate_vec.regenerate(res)      # Gen/VecFormulas.lean from the current source (numpy vector expressions)
     core.prove(res, PID, MODULES, clean=(tier == 'thorough'))
     sorm_model_stream(res, random.Random(seed + 9), 25 if tier == 'quick' else 600)
+    numerical_gradient_small_magnitudes(res)
     n = 6 if tier == 'quick' else 120
     explore(res, random.Random(seed), n)
     res.disagreements_checked = res.traces
